@@ -4,6 +4,7 @@ import (
 	"encoding/json"
 	"fmt"
 	"io/ioutil"
+	"sort"
 	"strings"
 )
 
@@ -259,8 +260,13 @@ func ReadMergeString(s string) (Diff, error) {
 func readMergeInto(d Diff, p path, n JsonNode) Diff {
 	switch n := n.(type) {
 	case jsonObject:
-		for k, v := range n {
-			d = readMergeInto(d, append(p.clone(), jsonString(k)), v)
+		keys := make([]string, 0, len(n))
+		for k := range n {
+			keys = append(keys, k)
+		}
+		sort.Strings(keys)
+		for _, k := range keys {
+			d = readMergeInto(d, append(p.clone(), jsonString(k)), n[k])
 		}
 		if len(n) == 0 {
 			return append(d, DiffElement{
